@@ -24,7 +24,14 @@ type c03Route struct {
 	P string `json:"p"`
 }
 
+// c03Phase: further registrations made AFTER requests were already served by the same router.
+type c03Phase struct {
+	Routes []c03Route `json:"routes"`
+	Reqs   []c03Route `json:"reqs"`
+}
+
 type c03Case struct {
+	More       []c03Phase `json:"more,omitempty"`
 	Routes     []c03Route `json:"routes"`
 	NotFound   bool       `json:"nf,omitempty"` // custom not-found handler installed
 	NotAllowed bool       `json:"na,omitempty"` // custom not-allowed handler installed
@@ -96,156 +103,166 @@ func c03Interp(c c03Case) (v kit.Verdict) {
 	if c.NotAllowed {
 		rt.SetNotAllowedHandler(mk(idNotAllowed))
 	}
-	// registration
-	table := map[string][]c03Reg{}   // method -> registered patterns
-	seen := map[string]bool{}        // method + cleaned pattern
-	for i, r := range c.Routes {
-		err := rt.Handle(r.M, r.P, mk(i))
-		wantErr := false
-		switch {
-		case !c03ValidMethods[r.M]:
-			wantErr = true
-			classes["reg-invalid-method"] = true
-		case len(r.P) == 0 || r.P[0] != '/':
-			wantErr = true
-			classes["reg-invalid-path"] = true
-		case seen[r.M+" "+path.Clean(r.P)]:
-			wantErr = true
-			classes["reg-duplicate"] = true
-		}
-		if wantErr != (err != nil) {
-			return v.Failf("Handle(%q,%q): error=%v, reference says rejected=%v", r.M, r.P, err, wantErr)
-		}
-		if err == nil {
-			seen[r.M+" "+path.Clean(r.P)] = true
-			table[r.M] = append(table[r.M], c03Reg{id: i, segs: c03Segs(r.P)})
-		}
+	table := map[string][]c03Reg{} // method -> registered patterns
+	seen := map[string]bool{}      // method + cleaned pattern
+	var allRoutes []c03Route
+	phases := append([]c03Phase{{Routes: c.Routes, Reqs: c.Reqs}}, c.More...)
+	if len(c.More) > 0 {
+		classes["register-after-serving"] = true
 	}
-	// requests
-	for _, q := range c.Reqs {
-		ran, ranVars = nil, nil
-		rec := httptest.NewRecorder()
-		req := &http.Request{Method: q.M, URL: &url.URL{Path: q.P}, Header: http.Header{}}
-		rt.ServeHTTP(rec, req)
-		rsegs := c03Segs(q.P)
-		what := fmt.Sprintf("request %s %q (cleaned %q)", q.M, q.P, path.Clean(q.P))
-		if len(ran) > 1 {
-			return v.Failf("%s: %d handlers ran: %v", what, len(ran), ran)
-		}
-		// reference match set
-		matches := map[int]map[string][]string{}
-		literal := -1
-		for _, reg := range table[q.M] {
-			if vars, ok := c03Match(reg.segs, rsegs); ok {
-				matches[reg.id] = vars
-				if c03AllLiteral(reg.segs) {
-					literal = reg.id
-				}
+	for _, ph := range phases {
+		base := len(allRoutes)
+		allRoutes = append(allRoutes, ph.Routes...)
+		// registration
+		for j, r := range ph.Routes {
+			i := base + j
+			err := rt.Handle(r.M, r.P, mk(i))
+			wantErr := false
+			switch {
+			case !c03ValidMethods[r.M]:
+				wantErr = true
+				classes["reg-invalid-method"] = true
+			case len(r.P) == 0 || r.P[0] != '/':
+				wantErr = true
+				classes["reg-invalid-path"] = true
+			case seen[r.M+" "+path.Clean(r.P)]:
+				wantErr = true
+				classes["reg-duplicate"] = true
+			}
+			if wantErr != (err != nil) {
+				return v.Failf("Handle(%q,%q): error=%v, reference says rejected=%v", r.M, r.P, err, wantErr)
+			}
+			if err == nil {
+				seen[r.M+" "+path.Clean(r.P)] = true
+				table[r.M] = append(table[r.M], c03Reg{id: i, segs: c03Segs(r.P)})
 			}
 		}
-		if len(matches) > 0 {
-			if len(ran) != 1 || ran[0] < 0 {
-				return v.Failf("%s: patterns %v match but handler ran=%v status=%d", what, c03Keys(matches), ran, rec.Code)
+		// requests
+		for _, q := range ph.Reqs {
+			ran, ranVars = nil, nil
+			rec := httptest.NewRecorder()
+			req := &http.Request{Method: q.M, URL: &url.URL{Path: q.P}, Header: http.Header{}}
+			rt.ServeHTTP(rec, req)
+			rsegs := c03Segs(q.P)
+			what := fmt.Sprintf("request %s %q (cleaned %q)", q.M, q.P, path.Clean(q.P))
+			if len(ran) > 1 {
+				return v.Failf("%s: %d handlers ran: %v", what, len(ran), ran)
 			}
-			vars, ok := matches[ran[0]]
-			if !ok {
-				return v.Failf("%s: handler of route #%d (%v) ran, which does not match; matching: %v", what, ran[0], c.Routes[ran[0]], c03Keys(matches))
-			}
-			if literal >= 0 && ran[0] != literal {
-				return v.Failf("%s: all-literal route #%d matches but route #%d (%v) ran", what, literal, ran[0], c.Routes[ran[0]])
-			}
-			if len(vars) != len(ranVars) {
-				return v.Failf("%s: route #%d %v bound vars %v, reference %v", what, ran[0], c.Routes[ran[0]], ranVars, vars)
-			}
-			for name, vals := range vars {
-				got, ok := ranVars[name]
-				found := false
-				for _, x := range vals {
-					if x == got {
-						found = true
-					}
-				}
-				if !ok || !found {
-					return v.Failf("%s: route #%d %v bound %q=%q (present=%v), reference allows %v", what, ran[0], c.Routes[ran[0]], name, got, ok, vals)
-				}
-			}
-			if len(matches) > 1 {
-				classes["ambiguous-match"] = true
-			}
-			if literal >= 0 && len(matches) > 1 {
-				classes["literal-wins"] = true
-			}
-			// backtracking needed: the route that ran has a param at position i while another
-			// registered route of the method has a literal equal to the request segment there
-			// and matches the request on all earlier positions.
-			win := c03Segs(c.Routes[ran[0]].P)
-			for i := range win {
-				if len(win[i]) > 0 && win[i][0] == ':' {
-					for _, reg := range table[q.M] {
-						if reg.id == ran[0] || len(reg.segs) <= i || reg.segs[i] != rsegs[i] {
-							continue
-						}
-						if _, ok := c03Match(reg.segs[:i], rsegs[:i]); ok {
-							classes["backtrack"] = true
-							v.NonTrivial = true
-						}
+			// reference match set
+			matches := map[int]map[string][]string{}
+			literal := -1
+			for _, reg := range table[q.M] {
+				if vars, ok := c03Match(reg.segs, rsegs); ok {
+					matches[reg.id] = vars
+					if c03AllLiteral(reg.segs) {
+						literal = reg.id
 					}
 				}
 			}
-			continue
-		}
-		// no pattern of the method matches: 405 with Allow, or 404
-		allowed := map[string]bool{}
-		for m, regs := range table {
-			if m == q.M {
+			if len(matches) > 0 {
+				if len(ran) != 1 || ran[0] < 0 {
+					return v.Failf("%s: patterns %v match but handler ran=%v status=%d", what, c03Keys(matches), ran, rec.Code)
+				}
+				vars, ok := matches[ran[0]]
+				if !ok {
+					return v.Failf("%s: handler of route #%d (%v) ran, which does not match; matching: %v", what, ran[0], allRoutes[ran[0]], c03Keys(matches))
+				}
+				if literal >= 0 && ran[0] != literal {
+					return v.Failf("%s: all-literal route #%d matches but route #%d (%v) ran", what, literal, ran[0], allRoutes[ran[0]])
+				}
+				if len(vars) != len(ranVars) {
+					return v.Failf("%s: route #%d %v bound vars %v, reference %v", what, ran[0], allRoutes[ran[0]], ranVars, vars)
+				}
+				for name, vals := range vars {
+					got, ok := ranVars[name]
+					found := false
+					for _, x := range vals {
+						if x == got {
+							found = true
+						}
+					}
+					if !ok || !found {
+						return v.Failf("%s: route #%d %v bound %q=%q (present=%v), reference allows %v", what, ran[0], allRoutes[ran[0]], name, got, ok, vals)
+					}
+				}
+				if len(matches) > 1 {
+					classes["ambiguous-match"] = true
+				}
+				if literal >= 0 && len(matches) > 1 {
+					classes["literal-wins"] = true
+				}
+				// backtracking needed: the route that ran has a param at position i while another
+				// registered route of the method has a literal equal to the request segment there
+				// and matches the request on all earlier positions.
+				win := c03Segs(allRoutes[ran[0]].P)
+				for i := range win {
+					if len(win[i]) > 0 && win[i][0] == ':' {
+						for _, reg := range table[q.M] {
+							if reg.id == ran[0] || len(reg.segs) <= i || reg.segs[i] != rsegs[i] {
+								continue
+							}
+							if _, ok := c03Match(reg.segs[:i], rsegs[:i]); ok {
+								classes["backtrack"] = true
+								v.NonTrivial = true
+							}
+						}
+					}
+				}
 				continue
 			}
-			for _, reg := range regs {
-				if _, ok := c03Match(reg.segs, rsegs); ok {
-					allowed[m] = true
+			// no pattern of the method matches: 405 with Allow, or 404
+			allowed := map[string]bool{}
+			for m, regs := range table {
+				if m == q.M {
+					continue
+				}
+				for _, reg := range regs {
+					if _, ok := c03Match(reg.segs, rsegs); ok {
+						allowed[m] = true
+					}
 				}
 			}
-		}
-		if len(allowed) > 0 {
-			classes["405"] = true
-			if len(allowed) >= 2 {
-				v.NonTrivial = true
-				classes["405-multi"] = true
-			}
-			if c.NotAllowed {
-				if len(ran) != 1 || ran[0] != idNotAllowed {
-					return v.Failf("%s: expected the not-allowed handler, ran=%v status=%d", what, ran, rec.Code)
+			if len(allowed) > 0 {
+				classes["405"] = true
+				if len(allowed) >= 2 {
+					v.NonTrivial = true
+					classes["405-multi"] = true
+				}
+				if c.NotAllowed {
+					if len(ran) != 1 || ran[0] != idNotAllowed {
+						return v.Failf("%s: expected the not-allowed handler, ran=%v status=%d", what, ran, rec.Code)
+					}
+					continue
+				}
+				if len(ran) != 0 || rec.Code != http.StatusMethodNotAllowed {
+					return v.Failf("%s: expected 405, got status=%d ran=%v (allowed by reference: %v)", what, rec.Code, ran, c03Keys2(allowed))
+				}
+				got := map[string]bool{}
+				hdr := rec.Header().Get("Allow")
+				for _, m := range strings.Split(hdr, ",") {
+					m = strings.TrimSpace(m)
+					if m != "" {
+						if got[m] {
+							return v.Failf("%s: Allow header %q lists %s twice", what, hdr, m)
+						}
+						got[m] = true
+					}
+				}
+				if fmt.Sprint(c03Keys2(got)) != fmt.Sprint(c03Keys2(allowed)) {
+					return v.Failf("%s: Allow header %q, reference %v", what, hdr, c03Keys2(allowed))
 				}
 				continue
 			}
-			if len(ran) != 0 || rec.Code != http.StatusMethodNotAllowed {
-				return v.Failf("%s: expected 405, got status=%d ran=%v (allowed by reference: %v)", what, rec.Code, ran, c03Keys2(allowed))
-			}
-			got := map[string]bool{}
-			hdr := rec.Header().Get("Allow")
-			for _, m := range strings.Split(hdr, ",") {
-				m = strings.TrimSpace(m)
-				if m != "" {
-					if got[m] {
-						return v.Failf("%s: Allow header %q lists %s twice", what, hdr, m)
-					}
-					got[m] = true
+			classes["404"] = true
+			if c.NotFound {
+				if len(ran) != 1 || ran[0] != idNotFound {
+					return v.Failf("%s: expected the not-found handler, ran=%v status=%d", what, ran, rec.Code)
 				}
+				continue
 			}
-			if fmt.Sprint(c03Keys2(got)) != fmt.Sprint(c03Keys2(allowed)) {
-				return v.Failf("%s: Allow header %q, reference %v", what, hdr, c03Keys2(allowed))
+			if len(ran) != 0 || rec.Code != http.StatusNotFound {
+				return v.Failf("%s: expected 404, got status=%d ran=%v", what, rec.Code, ran)
 			}
-			continue
-		}
-		classes["404"] = true
-		if c.NotFound {
-			if len(ran) != 1 || ran[0] != idNotFound {
-				return v.Failf("%s: expected the not-found handler, ran=%v status=%d", what, ran, rec.Code)
-			}
-			continue
-		}
-		if len(ran) != 0 || rec.Code != http.StatusNotFound {
-			return v.Failf("%s: expected 404, got status=%d ran=%v", what, rec.Code, ran)
 		}
 	}
 	for k := range classes {
@@ -414,6 +431,29 @@ func c03Gen(rt *rapid.T) c03Case {
 		}
 		q.P = c03GenReqPath(rt, c.Routes)
 		c.Reqs = append(c.Reqs, q)
+	}
+	// later phases: more routes (often for a method not used so far) registered after serving
+	np := rapid.SampledFrom([]int{0, 0, 1, 1, 2}).Draw(rt, "phases")
+	known := append([]c03Route(nil), c.Routes...)
+	for p := 0; p < np; p++ {
+		var ph c03Phase
+		nr := rapid.IntRange(1, 4).Draw(rt, "pn")
+		for i := 0; i < nr; i++ {
+			var r c03Route
+			r.M = rapid.SampledFrom(methods).Draw(rt, "pm")
+			if len(known) > 0 && rapid.Bool().Draw(rt, "samepath") {
+				r.P = known[rapid.IntRange(0, len(known)-1).Draw(rt, "pfrom")].P
+			} else {
+				r.P = c03GenPattern(rt)
+			}
+			ph.Routes = append(ph.Routes, r)
+			known = append(known, r)
+		}
+		nq := rapid.IntRange(1, 10).Draw(rt, "pq")
+		for i := 0; i < nq; i++ {
+			ph.Reqs = append(ph.Reqs, c03Route{M: rapid.SampledFrom(methods).Draw(rt, "pqm"), P: c03GenReqPath(rt, known)})
+		}
+		c.More = append(c.More, ph)
 	}
 	return c
 }
